@@ -19,7 +19,7 @@ ASSUME = [
     "refined results keep the candidate's class (C04: refine_class); observed per configuration",
 ]
 RULE = ("complete enumeration: 12 grids (Cartesian 1-3d x periodicity masks, polar, spherical, cylindrical +/- periodic z) x modes {0,1,2,3,8} "
-        "x width given/not x refine on/off x threshold rule {0.5, extrema, mean, otsu}; non-trivial = at least one droplet located; "
+        "x width {not given, 0.5, 0.0} x refine on/off x threshold rule {0.5, extrema, mean, otsu}; non-trivial = at least one droplet located; "
         "distinct by configuration")
 
 CLS = {"SphericalDroplet": "Spherical", "DiffuseDroplet": "Diffuse", "PerturbedDroplet2D": "P2D",
@@ -118,7 +118,7 @@ def check(ctx: vlib.Ctx) -> int:
     modes_list = [0, 1, 2, 3, 8]
     for (name, grid, cyl) in grids():
         dim = grid.dim
-        for modes, width, refine, thr in itertools.product(modes_list, [None, 0.5], [False, True], [0.5, "extrema", "mean", "otsu"]):
+        for modes, width, refine, thr in itertools.product(modes_list, [None, 0.5, 0.0], [False, True], [0.5, "extrema", "mean", "otsu"]):
             if ctx.quick and refine and dim == 3 and modes == 8 and thr != "extrema":
                 ctx.count("skipped_in_quick_tier", "3-d, 8 modes, refine, non-extrema threshold")
                 continue  # the slowest fits; all enumerated in the thorough tier
